@@ -10,6 +10,7 @@ import common
 import flagstate
 import ival
 import tables
+import vocab
 
 SCALAR_VALUES = [(0, 0xD7FF), (0xE000, 0x10FFFF)]
 
@@ -82,13 +83,27 @@ def canon_encodings(lib, d):
         return out
 
     # encoder constructor: fn(reader, Encoding) with a switch on the encoding
+    # (the encoding may be any of its parameters, and the switch need not be the first thing it does:
+    # `with_options(reader, from, lossy)` that sets up two closures first)
     ctor = None
+    sw_bb = 0
     for b in lib.bodies:
-        if b.nargs == 2 and b.local_ty(2) == enc_path and b.blocks[0]["term"]["k"] == "switch":
-            ctor = b
+        if b.raw["def_kind"] == "Closure" or b.id == d.id:
+            continue
+        params = [k for k in range(1, b.nargs + 1) if b.local_ty(k) == enc_path]
+        if not params:
+            continue
+        for bi in sorted(b.reach()):
+            tm = b.blocks[bi]["term"]
+            if tm["k"] != "switch":
+                continue
+            on_param = any(s_["k"] == "assign" and s_["rv"]["k"] == "discr" and not s_["rv"]["p"]["pr"] and s_["rv"]["p"]["l"] in params and is_place(tm["discr"]) and tm["discr"]["p"]["l"] == s_["p"]["l"] for s_ in b.blocks[bi]["stmts"])
+            if on_param and any((fn_of(t_) or {}).get("local") and (fn_of(t_) or {}).get("name") == "new" for _, _, t_ in Super(lib, b, depth=2).calls()):
+                ctor, sw_bb = b, bi
+                break
     if not ctor:
         raise AnchorLost("encoder constructor (switch on the detected encoding) not found")
-    sw = ctor.blocks[0]["term"]
+    sw = ctor.blocks[sw_bb]["term"]
     canon = {}
     detail = {}
     for var in adt["variants"]:
@@ -99,10 +114,10 @@ def canon_encodings(lib, d):
         dec = None
         en = None
         for bb, t in ctor.calls():
-            if not ctor.edge_dominates(0, var["idx"], tgts[0], bb):
+            if not ctor.edge_dominates(sw_bb, var["idx"], tgts[0], bb):
                 continue
             f = fn_of(t) or {}
-            if f.get("local") and f["name"] == "new" and len(t["args"]) == 2:
+            if f.get("local") and f["name"] == "new" and len(t["args"]) >= 2:
                 # decoder constructor with an endianness aggregate
                 tr = trace(ctor, t["args"][1])
                 if tr.origin and tr.origin[0] == "agg":
@@ -118,7 +133,7 @@ def canon_encodings(lib, d):
                     continue
                 t = csup.body_of(nn).blocks[nn[1]]["term"]
                 f = fn_of(t) if t["k"] == "call" else None
-                if f and f.get("local") and f["name"] == "new" and len(t["args"]) == 2 and f.get("impl_self_adt"):
+                if f and f.get("local") and f["name"] == "new" and len(t["args"]) >= 2 and f.get("impl_self_adt"):
                     tr = strace_deep(csup, nn, t["args"][1])
                     if tr.origin and tr.origin[0] == "agg" and tr.origin[1]["rv"].get("variant") and any(k_[1] == tr.origin[1]["rv"]["variant"] for k_ in endian):
                         found.add((f["impl_self_adt"], tr.origin[1]["rv"]["variant"]))
@@ -144,6 +159,114 @@ def canon_encodings(lib, d):
         canon[var["name"]] = f"utf{width_of_method[mth]}{e}"
         detail[var["name"]] = f"{dec} + {en} -> {mth.rsplit('::', 1)[-1]} -> {e}"
     return canon, detail, ctor, endian, width_of_method
+
+
+def _verdict_sources(ctx, sup, node, op, det, cfg, _depth=0):
+    """Where can the encoding value `op` (read at `node`) come from: {"detector"} (the detector applied to the in-memory
+    input), {"override"} (the payload of an Option the root function was given; its parameter index goes to `cfg`),
+    {"other:<what>"}. Follows helpers and closures the supergraph inlines, Option::unwrap_or / unwrap_or_else, and
+    variables with several definitions (match arms)."""
+    if _depth > 8:
+        return {"other:depth"}
+    tr = strace(sup, node, op)
+    o = tr.origin
+    frame = tr.origin_node[0]
+
+    def of_call(bb, t):
+        f = fn_of(t) or {}
+        dd = f.get("resolved") or f.get("def")
+        cn = (frame, bb)
+        if dd == det.id:
+            tr2 = strace(sup, cn, t["args"][0], extra=("std::option::Option::<T>::unwrap_or", "core::slice::<impl [T]>::get"))
+            same = any(s[0] == "downcast" and s[1] in _mem_variants(ctx.facts) for s in tr2.steps)
+            return {"detector"} if same else {"other:detector applied to a different buffer"}
+        if f.get("def") in ("std::option::Option::<T>::unwrap_or_else", "std::option::Option::<T>::unwrap_or") and len(t["args"]) == 2:
+            ot = strace(sup, cn, t["args"][0])
+            out = set()
+            if ot.origin and ot.origin[0] == "arg" and not ot.origin_node[0]:
+                out.add("override")
+                cfg.add(ot.origin[1])
+            else:
+                out.add("other:option that is not a parameter")
+            if f["def"].endswith("unwrap_or"):
+                return out | _verdict_sources(ctx, sup, cn, t["args"][1], det, cfg, _depth + 1)
+            inl = [m for lab, m in sup.edges(cn) if lab in ("call", "maycall")]
+            if not inl:
+                return out | {"other:closure not resolved"}
+            for m in inl:
+                cb = sup.body_of(m)
+                for rb in cb.return_blocks():
+                    out |= _verdict_sources(ctx, sup, (m[0], rb), {"k": "copy", "p": {"l": 0, "pr": []}}, det, cfg, _depth + 1)
+            return out
+        inl = [m for lab, m in sup.edges(cn) if lab == "call"]
+        if inl:
+            out = set()
+            for m in inl:
+                cb = sup.body_of(m)
+                for rb in cb.return_blocks():
+                    out |= _verdict_sources(ctx, sup, (m[0], rb), {"k": "copy", "p": {"l": 0, "pr": []}}, det, cfg, _depth + 1)
+            return out
+        return {"other:" + str(f.get("def"))}
+
+    if not o:
+        return {"other:unknown"}
+    if o[0] == "call":
+        return of_call(o[1], o[2])
+    if o[0] == "arg":
+        if not frame and any(s[0] == "downcast" and s[1] == "Some" for s in tr.steps):
+            cfg.add(o[1])
+            return {"override"}
+        return {"other:parameter"}
+    if o[0] == "multi":
+        out = set()
+        for bb, idx, kind, payload in o[2]:
+            if kind == "call":
+                out |= of_call(bb, payload)
+            elif kind == "assign" and payload["rv"]["k"] == "use":
+                out |= _verdict_sources(ctx, sup, (frame, bb), payload["rv"]["op"], det, cfg, _depth + 1)
+            else:
+                out.add("other:assigned directly")
+        return out
+    return {"other:" + str(o[0])}
+
+
+def _override_not_none(lib, ep, params):
+    """The explicit-encoding Option (parameter(s) `params` of the entry point) must be None unless somebody set it: at
+    every call of the entry point the operand is a literal None, or a field that every constructor of its struct
+    initialises with a literal None. Returns None when that holds, else the complaint."""
+    n_calls = 0
+    for b in lib.bodies:
+        for bb, t in b.calls():
+            f = fn_of(t) or {}
+            if (f.get("resolved") or f.get("def")) != ep.id:
+                continue
+            n_calls += 1
+            for k in params:
+                if k - 1 >= len(t["args"]):
+                    return "the entry point is called without its explicit-encoding argument"
+                tr = trace(b, t["args"][k - 1])
+                o = tr.origin
+                if o and o[0] == "agg" and o[1]["rv"].get("variant") == "None":
+                    continue
+                fs = [s_ for s_ in tr.steps if s_[0] == "field"]
+                if o and o[0] == "arg" and len(fs) == 1 and fs[0][2]:
+                    fname, fadt = fs[0][1], fs[0][2]
+                    n_ctor = 0
+                    for b2 in lib.bodies:
+                        for bi, blk in enumerate(b2.blocks):
+                            for s_ in blk["stmts"]:
+                                if s_["k"] == "assign" and s_["rv"]["k"] == "aggregate" and s_["rv"].get("agg") == "adt" and s_["rv"].get("adt") == fadt and fname in s_["rv"].get("fields", []):
+                                    n_ctor += 1
+                                    vt = trace(b2, s_["rv"]["ops"][s_["rv"]["fields"].index(fname)])
+                                    if not (vt.origin and vt.origin[0] == "agg" and vt.origin[1]["rv"].get("variant") == "None"):
+                                        return f"the explicit encoding `{fadt}.{fname}` is not None from the start ({b2.name} initialises it otherwise): detection is bypassed without anybody asking"
+                    if n_ctor == 0:
+                        return f"no constructor of {fadt} found for the explicit-encoding field"
+                    continue
+                return f"the explicit encoding passed by {b.name} is neither None nor a field that starts as None"
+    if n_calls == 0:
+        return "no call of the YAML entry point found"
+    return None
 
 
 @rule("R02.1", 1, "YAML: the whole-text fast path is reached only on the UTF-8 edge of the encoding detector applied to the same buffer", ["C02", "C07"])
@@ -241,8 +364,36 @@ def r02_1(ctx):
                             ok = True
                         else:
                             why = "the fast path is not confined to the detector's UTF-8 edge"
+        how = "whole-slice text reaches serde_yaml only when the detector says UTF-8"
+        if not ok:
+            # the verdict may reach the switch through helpers and closures, and an explicit configuration value may
+            # take its place: `encoding.unwrap_or_else(|| Encoding::detect(b))` / `match cfg { Some(e) => e, None =>
+            # detect(b) }`. Accepted when every source of the switched value is the detector applied to this buffer or
+            # the payload of an Option the entry point was given, and that Option is None unless somebody set it
+            for n3 in sup.nodes():
+                b3 = sup.body_of(n3)
+                t3 = b3.blocks[n3[1]]["term"]
+                if t3["k"] != "switch":
+                    continue
+                for s in b3.blocks[n3[1]]["stmts"]:
+                    if not (s["k"] == "assign" and s["rv"]["k"] == "discr" and vocab.ty_is(str(s["rv"]["p"].get("ty", "")), adt)):
+                        continue
+                    tg = [x for v, x in t3["targets"] if v == utf8[0]]
+                    if not (tg and ps.edge_dominates(n3, utf8[0], (n3[0], tg[0]), n)):
+                        continue
+                    cfg = set()
+                    srcs = _verdict_sources(ctx, Super(lib, ep, depth=4), n3, {"k": "copy", "p": s["rv"]["p"]}, d, cfg)
+                    if "detector" in srcs and srcs <= {"detector", "override"}:
+                        bad = _override_not_none(lib, ep, cfg)
+                        if bad is None:
+                            ok = True
+                            how = "whole-slice text reaches serde_yaml only when the detector says UTF-8, or when the caller's explicit encoding (None unless set) does"
+                        else:
+                            why = bad
+                    elif srcs:
+                        why = f"the value the fast path is selected by is not always the detector's verdict (sources: {sorted(srcs)})"
         ctx.ob("whole-text-parse:gated-by-encoding-detection", ok, sup.site(n),
-               "whole-slice text reaches serde_yaml only when the detector says UTF-8" if ok else why + " (UTF-16/32 text made of ASCII is valid UTF-8 and would be parsed as-is)")
+               how if ok else why + " (UTF-16/32 text made of ASCII is valid UTF-8 and would be parsed as-is)")
     if n_sites == 0:
         ctx.ob("whole-text-parse:none", True, site(ep), "no whole-input fast path: every parse goes through the re-encoder", trivial=False)
 
